@@ -2,10 +2,10 @@
 package checks
 
 import (
-	"github.com/AsaiYusuke/jsonpath"
 	"bytes"
 	"encoding/json"
 	"fmt"
+	"github.com/AsaiYusuke/jsonpath"
 	"reflect"
 	"runtime"
 	"strings"
